@@ -632,6 +632,12 @@ def _quiescent(run: Run, loop: VLoop) -> bool:
         for i, ext in enumerate(run.externals):
             if ext.get("after_quiet", 0) <= run.quiet_count:
                 options.append(("ext", i))
+                if ext.get("with_gate"):
+                    # opt-in (specs without `with_gate` see the same options as before): the external action arrives in the
+                    # very instant a step's awaited I/O completes -- both happen before the control loop runs again, so the
+                    # step's outcome and the external tick are in front of the loop together
+                    for key in list(run.waiting):
+                        options.append(("gate+ext", (key, i)))
     has_timer = any(not h._cancelled for h in loop._scheduled)  # type: ignore[attr-defined]
     run.quiet_count += 1
     if not options:
@@ -651,6 +657,18 @@ def _quiescent(run: Run, loop: VLoop) -> bool:
     if kind == "gate":
         run.waiting.remove(arg)
         run.gates[arg].set()
+        return True
+    if kind == "gate+ext":
+        key, i = arg
+        ext = run.externals.pop(i)
+        run.trace.notes.append(f"raced: {ext['op']} with gate {key[0]}:{key[1]}:{key[2]}")
+        run.trace.raced = getattr(run.trace, "raced", []) + [(ext["op"], key[0], key[1], key[2], len(run.trace.calls))]  # type: ignore[attr-defined]
+        if ext["with_gate"] == "before":
+            _do_external(run, ext, loop)
+        run.waiting.remove(key)
+        run.gates[key].set()
+        if ext["with_gate"] != "before":
+            _do_external(run, ext, loop)
         return True
     ext = run.externals.pop(arg)
     _do_external(run, ext, loop)
